@@ -21,6 +21,7 @@ void __tsan_acquire(void*) __attribute__((weak));
 void __tsan_release(void*) __attribute__((weak));
 
 long __real_syscall(long number, long a1, long a2, long a3, long a4, long a5, long a6);
+unsigned int __real__ZNSt13random_device9_M_getvalEv(void* self);
 int __real_pthread_create(pthread_t*, const pthread_attr_t*, void* (*)(void*), void*);
 int __real_pthread_join(pthread_t, void**);
 int __real_pthread_detach(pthread_t);
@@ -81,6 +82,7 @@ struct OnceState {
 
 struct Sched {
   bool on = false;
+  uint64_t randomDraws = 0;
   SchedConfig cfg;
   std::vector<SimThread*> threads;
   SimThread* cur = nullptr;
@@ -393,6 +395,7 @@ void begin(const SchedConfig& cfg) {
   S.mutexes.clear();
   S.onces.clear();
   S.cfg = cfg;
+  S.randomDraws = 0;
   S.now = 1700000000ULL * 1000000000ULL;
   S.rng = cfg.seed * 0x9e3779b97f4a7c15ULL + 0x1234567;
   S.ihash = 1469598103934665603ULL;
@@ -769,6 +772,18 @@ long __wrap_syscall(long number, long a1, long a2, long a3, long a4, long a5, lo
     return 0;
   }
   return __real_syscall(number, a1, a2, a3, a4, a5, a6);
+}
+
+// std::random_device (the execution queues draw their "build id" from it, and task identifiers - whose decimal length
+// decides how many reads a chunked control message takes - are derived from that): one more source of nondeterminism, found
+// by the 1000-seed determinism gate as two seeds in a thousand whose event hashes depended on the process they ran in.
+unsigned int __wrap__ZNSt13random_device9_M_getvalEv(void* self) {
+  if (!tl_self) return __real__ZNSt13random_device9_M_getvalEv(self);
+  uint64_t x = S.cfg.seed + 0x9e3779b97f4a7c15ULL * ++S.randomDraws;
+  x ^= x >> 31;
+  x *= 0xbf58476d1ce4e5b9ULL;
+  x ^= x >> 29;
+  return (unsigned int)(x >> 16);
 }
 
 int __wrap_nanosleep(const struct timespec* req, struct timespec* rem) {
